@@ -72,6 +72,16 @@ pub enum RTy {
     Duration,
     /// an `f64` LITERAL that is a dyadic rational (numerator, denominator); no float arithmetic is supported
     F64Lit,
+    /// `std::collections::HashMap<K, V, _>`: the prelude's `HMap K V` (association list with distinct keys)
+    HashMap(Box<RTy>, Box<RTy>),
+    /// `std::collections::VecDeque<T>`: the prelude's `VecDeque T` (a list, head = front)
+    VecDeque(Box<RTy>),
+    /// type not yet known (`HashMap::with_hasher(..)`, `VecDeque::new()`): Lean infers it (`_`)
+    Infer,
+    /// `u64` in a bit-manipulating function (`bits: true` in the target table): Lean `UInt64`
+    U64,
+    /// tuple of values
+    Tuple(Vec<RTy>),
 }
 
 impl RTy {
@@ -92,11 +102,16 @@ impl RTy {
             RTy::Iter(t) => format!("List {}", t.lean_atom()),
             RTy::Duration => "Int".into(),
             RTy::F64Lit => "(Int × Int)".into(),
+            RTy::HashMap(k, v) => format!("HMap {} {}", k.lean_atom(), v.lean_atom()),
+            RTy::VecDeque(t) => format!("VecDeque {}", t.lean_atom()),
+            RTy::Infer => "_".into(),
+            RTy::U64 => "UInt64".into(),
+            RTy::Tuple(ts) => if ts.is_empty() { "Unit".into() } else { format!("({})", ts.iter().map(|t| t.lean_atom()).collect::<Vec<_>>().join(" × ")) },
         }
     }
     pub fn lean_atom(&self) -> String {
         match self {
-            RTy::Opt(_) | RTy::VecFn(_) | RTy::VecList(_) | RTy::Str | RTy::Res(_, _) | RTy::Iter(_) => format!("({})", self.lean()),
+            RTy::Opt(_) | RTy::VecFn(_) | RTy::VecList(_) | RTy::Str | RTy::Res(_, _) | RTy::Iter(_) | RTy::HashMap(_, _) | RTy::VecDeque(_) => format!("({})", self.lean()),
             _ => self.lean(),
         }
     }
@@ -114,6 +129,21 @@ impl RTy {
             RTy::Iter(t) => format!("impl Iterator<Item = {}>", t.rust()),
             RTy::Duration => "Duration".into(),
             RTy::F64Lit => "f64".into(),
+            RTy::HashMap(k, v) => format!("HashMap<{}, {}>", k.rust(), v.rust()),
+            RTy::VecDeque(t) => format!("VecDeque<{}>", t.rust()),
+            RTy::Infer => "_".into(),
+            RTy::U64 => "u64".into(),
+            RTy::Tuple(ts) => format!("({})", ts.iter().map(|t| t.rust()).collect::<Vec<_>>().join(", ")),
+        }
+    }
+    /// equal up to `Infer`
+    pub fn compat(&self, other: &RTy) -> bool {
+        match (self, other) {
+            (RTy::Infer, _) | (_, RTy::Infer) => true,
+            (RTy::Opt(a), RTy::Opt(b)) | (RTy::VecFn(a), RTy::VecFn(b)) | (RTy::VecList(a), RTy::VecList(b)) | (RTy::Iter(a), RTy::Iter(b)) | (RTy::VecDeque(a), RTy::VecDeque(b)) => a.compat(b),
+            (RTy::HashMap(a, b), RTy::HashMap(c, d)) | (RTy::Res(a, b), RTy::Res(c, d)) => a.compat(c) && b.compat(d),
+            (RTy::Tuple(a), RTy::Tuple(b)) => a.len() == b.len() && a.iter().zip(b.iter()).all(|(x, y)| x.compat(y)),
+            (a, b) => a == b,
         }
     }
     pub fn int(&self) -> Option<IntTy> { if let RTy::Int(t) = self { Some(*t) } else { None } }
